@@ -200,6 +200,7 @@ type lvar struct {
 	elem    string       // ... and the Gallina name of the current element
 	rangeOf string       // range index variable: the text of the ranged expression (X[i] is then the element)
 	isState bool         // an out-parameter of a void function
+	aliased bool         // a slice local that is used other than by index, len, range and return (element stores would be shared)
 }
 
 type extern struct {
@@ -523,6 +524,11 @@ func (t *fnTr) expr(e ast.Expr) string {
 			if k == "int" {
 				return "(" + t.expr(x.X) + " + " + t.expr(x.Y) + ")%Z"
 			}
+		case token.SUB:
+			// int is 64 bits wide; the translation computes in Z (lengths, indices and counters stay far from the limits)
+			if k == "int" {
+				return "(" + t.expr(x.X) + " - " + t.expr(x.Y) + ")%Z"
+			}
 		}
 		t.unsupported(e, "binary "+x.Op.String())
 	case *ast.CallExpr:
@@ -551,9 +557,19 @@ func (t *fnTr) expr(e ast.Expr) string {
 			t.guards = append(t.guards, fmt.Sprintf("match nth_error %s (length %s - 1) with None => Crash | Some %s =>", base, base, n))
 			return n
 		}
-		i, ok := t.constInt(x.Index)
-		if !ok || (k != "bools" && k != "strs" && k != "vlist" && k != "str" && !strings.HasPrefix(k, "recs:")) {
+		if k != "bools" && k != "strs" && k != "vlist" && k != "str" && !strings.HasPrefix(k, "recs:") {
 			t.unsupported(e, "index expression")
+		}
+		i, ok := t.constInt(x.Index)
+		if !ok {
+			// xs[e] with a computed index: Go panics when e < 0 or len(xs) <= e
+			base := t.expr(x.X)
+			ix := t.expr(x.Index)
+			t.fresh++
+			n := fmt.Sprintf("idx%d", t.fresh)
+			t.guards = append(t.guards, fmt.Sprintf("if Z.ltb %s 0 then Crash else", ix))
+			t.guards = append(t.guards, fmt.Sprintf("match nth_error %s (Z.to_nat %s) with None => Crash | Some %s =>", base, ix, n))
+			return n
 		}
 		base := t.expr(x.X)
 		t.fresh++
@@ -572,6 +588,32 @@ func (t *fnTr) expr(e ast.Expr) string {
 				n := t.expr(x.High)
 				t.guards = append(t.guards, fmt.Sprintf("if (Z.ltb %s 0 || Z.ltb (Z.of_nat (length %s)) %s) then Crash else", n, base, n))
 				return "(firstn (Z.to_nat " + n + ") " + base + ")"
+			}
+		}
+		if kk := t.kindOfExpr(x.X); !x.Slice3 && (kk == "vlist" || kk == "strs" || strings.HasPrefix(kk, "recs:")) {
+			_, loConst := int64(0), x.Low == nil
+			if x.Low != nil {
+				_, loConst = t.constInt(x.Low)
+			}
+			_, hiConst := int64(0), x.High == nil
+			if x.High != nil {
+				_, hiConst = t.constInt(x.High)
+			}
+			if !loConst || !hiConst {
+				// xs[lo:hi] with computed bounds.  Go panics unless 0 <= lo <= hi <= cap(xs); the translation panics unless
+				// hi <= len(xs) as well: wherever it does not panic, Go does not either and yields these elements.
+				base := t.expr(x.X)
+				lo := "0%Z"
+				if x.Low != nil {
+					lo = t.expr(x.Low)
+				}
+				if x.High == nil {
+					t.guards = append(t.guards, fmt.Sprintf("if (Z.ltb %s 0 || Z.ltb (Z.of_nat (length %s)) %s) then Crash else", lo, base, lo))
+					return "(skipn (Z.to_nat " + lo + ") " + base + ")"
+				}
+				hi := t.expr(x.High)
+				t.guards = append(t.guards, fmt.Sprintf("if (Z.ltb %s 0 || Z.ltb %s %s || Z.ltb (Z.of_nat (length %s)) %s) then Crash else", lo, hi, lo, base, hi))
+				return "(firstn (Z.to_nat (" + hi + " - " + lo + ")) (skipn (Z.to_nat " + lo + ") " + base + "))"
 			}
 		}
 		if k := t.kindOfExpr(x.X); (k != "str" && k != "strs") || x.Slice3 {
@@ -613,6 +655,12 @@ func (t *fnTr) expr(e ast.Expr) string {
 				if f, ok := lv.fields[x.Sel.Name]; ok {
 					return f.name
 				}
+			}
+		}
+		// a field of a struct-valued expression (xs[i].f): the record projection
+		if k := t.kindOfExpr(x.X); strings.HasPrefix(k, "rec:") {
+			if _, ok := t.structs[k[4:]]; ok {
+				return "(" + k[4:] + "_" + x.Sel.Name + " " + t.expr(x.X) + ")"
 			}
 		}
 		t.unsupported(e, "selector "+types.ExprString(e))
@@ -689,6 +737,14 @@ func (t *fnTr) call(x *ast.CallExpr) string {
 			case "len":
 				return "(Z.of_nat (length " + t.expr(x.Args[0]) + "))"
 			case "append":
+				if len(x.Args) == 2 && x.Ellipsis.IsValid() {
+					// append(xs, ys...)
+					k0, k1 := strings.TrimPrefix(t.kindOfExpr(x.Args[0]), "ptr:"), t.kindOfExpr(x.Args[1])
+					if k0 != k1 || (k0 != "vlist" && k0 != "strs") {
+						t.unsupported(x, "append form")
+					}
+					return "(app " + t.expr(x.Args[0]) + " " + t.expr(x.Args[1]) + ")"
+				}
 				if len(x.Args) != 2 || x.Ellipsis.IsValid() {
 					t.unsupported(x, "append form")
 				}
@@ -708,6 +764,16 @@ func (t *fnTr) call(x *ast.CallExpr) string {
 					n, ok := t.constInt(x.Args[1])
 					if ok && n == 1 && t.kindOfExpr(x) == "str" {
 						return "[zero_byte]" // a one-byte buffer
+					}
+					if k := t.kindOfExpr(x); !ok && len(x.Args) == 2 && (k == "strs" || k == "vlist") {
+						// make([]T, n): n zero values; Go panics when n < 0
+						ln := t.expr(x.Args[1])
+						zero := "([] : str)"
+						if k == "vlist" {
+							zero = "VNil"
+						}
+						t.guards = append(t.guards, fmt.Sprintf("if Z.ltb %s 0 then Crash else", ln))
+						return "(repeat " + zero + " (Z.to_nat " + ln + "))"
 					}
 					if !ok || n != 0 {
 						t.unsupported(x, "make with a non-zero length")
@@ -763,10 +829,14 @@ func (t *fnTr) call(x *ast.CallExpr) string {
 //   one result            f : args -> T
 //   (T, error)            f : args -> res T
 //   no result, out-params f : args -> (the new values of the out-parameters)      (arguments &local)
+//   io.Reader arguments   f : args -> option (R * the readers afterwards), None = the callee panicked; R as above
+//                         except that (*T, error) is the pair (T * option err) and (T1, T2, error) the triple
 type extCall struct {
-	term    string
-	results []string // kinds of the Go results
-	outArgs []*lvar  // locals passed by address, in parameter order
+	term     string
+	results  []string // kinds of the Go results
+	outArgs  []*lvar  // locals passed by address, in parameter order
+	stateOut []*lvar  // reader locals passed to the callee (it consumes from them), in parameter order
+	rich     string   // the Gallina pattern kind of R for a call with stateOut: "pair" (v, err) / "triple" / "res" / "one"
 }
 
 func (t *fnTr) externCall(x *ast.CallExpr) (*extCall, bool) {
@@ -792,16 +862,49 @@ func (t *fnTr) externCall(x *ast.CallExpr) (*extCall, bool) {
 		args = append(args, t.expr(recv))
 	}
 	np := sig.Params().Len()
-	if len(x.Args) != np || (sig.Variadic() && !x.Ellipsis.IsValid()) {
-		t.unsupported(x, "external call with a different number of arguments than parameters (variadic without ...)")
+	var variadicArgs []ast.Expr // f(a, b, c) with the variadic parameter spelled out: the list [b; c]
+	spelled := sig.Variadic() && !x.Ellipsis.IsValid()
+	if spelled {
+		if len(x.Args) < np-1 {
+			t.unsupported(x, "external call with too few arguments")
+		}
+		variadicArgs = x.Args[np-1:]
+	} else if len(x.Args) != np {
+		t.unsupported(x, "external call with a different number of arguments than parameters")
 	}
-	for i, a := range x.Args {
+	for i := 0; i < np; i++ {
 		k := t.kindOfType(sig.Params().At(i).Type())
 		if k == "" || k == "tok" {
 			t.unsupported(x, "external call with a parameter of this type")
 		}
 		tys = append(tys, fnCoqType(k))
+		if spelled && i == np-1 {
+			if k != "strs" && k != "bools" && k != "vlist" {
+				t.unsupported(x, "spelled-out variadic arguments of this type")
+			}
+			var els []string
+			for _, a := range variadicArgs {
+				if k == "vlist" {
+					els = append(els, t.boxVal(a))
+				} else {
+					els = append(els, t.expr(a))
+				}
+			}
+			args = append(args, "(["+strings.Join(els, "; ")+"] : "+fnCoqType(k)+")")
+			continue
+		}
+		a := x.Args[i]
 		switch {
+		case k == "reader":
+			var lv *lvar
+			if id, ok := a.(*ast.Ident); ok {
+				lv = t.locals[t.p.info.Uses[id]]
+			}
+			if lv == nil || lv.kind != "reader" {
+				t.unsupported(x, "io.Reader argument other than a reader local")
+			}
+			ec.stateOut = append(ec.stateOut, lv)
+			args = append(args, lv.name)
 		case strings.HasPrefix(k, "ptr:"):
 			u, ok := a.(*ast.UnaryExpr)
 			var lv *lvar
@@ -830,6 +933,20 @@ func (t *fnTr) externCall(x *ast.CallExpr) (*extCall, bool) {
 	}
 	var rty string
 	switch {
+	case len(ec.stateOut) > 0 && len(ec.outArgs) == 0:
+		switch {
+		case len(ec.results) == 2 && ec.results[1] == "err" && strings.HasPrefix(ec.results[0], "ptr:"):
+			ec.rich, rty = "pair", "("+fnCoqType(ec.results[0])+" * (option err))"
+		case len(ec.results) == 2 && ec.results[1] == "err":
+			ec.rich, rty = "res", "(res "+fnCoqType(ec.results[0])+")"
+		case len(ec.results) == 3 && ec.results[2] == "err":
+			ec.rich, rty = "triple", "("+fnCoqType(ec.results[0])+" * "+fnCoqType(ec.results[1])+" * (option err))"
+		case len(ec.results) == 1:
+			ec.rich, rty = "one", fnCoqType(ec.results[0])
+		default:
+			t.unsupported(x, "external call with this signature")
+		}
+		rty = "(option (" + rty + " * " + tupleType(ec.stateOut) + "))"
 	case len(ec.results) == 1 && len(ec.outArgs) == 0:
 		rty = fnCoqType(ec.results[0])
 	case len(ec.results) == 2 && ec.results[1] == "err" && len(ec.outArgs) == 0:
@@ -1071,6 +1188,9 @@ func (t *fnTr) resultOnly() string {
 	if len(t.resKind) == 2 && t.resKind[1] == "err" {
 		return "(res " + fnCoqType(t.resKind[0]) + ")"
 	}
+	if len(t.resKind) == 3 && t.resKind[2] == "err" {
+		return "(" + fnCoqType(t.resKind[0]) + " * " + fnCoqType(t.resKind[1]) + " * (option err))" // (T1, T2, error): the values together
+	}
 	if len(t.resKind) == 1 {
 		return fnCoqType(t.resKind[0])
 	}
@@ -1092,8 +1212,8 @@ func (t *fnTr) resultType() string {
 	if len(t.state) > 0 && len(t.resKind) > 0 {
 		return "(" + t.resultOnly() + " * " + tupleType(t.state) + ")"
 	}
-	if len(t.resKind) == 2 && t.resKind[1] == "err" {
-		return "(res " + fnCoqType(t.resKind[0]) + ")"
+	if len(t.resKind) >= 2 {
+		return t.resultOnly()
 	}
 	if len(t.resKind) == 1 {
 		return fnCoqType(t.resKind[0])
@@ -1157,6 +1277,48 @@ func (t *fnTr) branching(s ast.Stmt, rest []ast.Stmt, end func() string, bodies 
 	return "bindc (S := " + tupleType(as) + ") (" + inner + ")\n  (fun " + tuplePat(as) + " => " + t.stmts(rest, end) + ")"
 }
 
+// errExpr translates an expression of type error to an (option err): nil, a local error variable, fmt.Errorf / errors.New,
+// or a package-level error variable (initialised with errors.New: its class is EOther whatever its text).
+func (t *fnTr) errExpr(e ast.Expr) (string, bool) {
+	if t.p.info.Types[e].IsNil() {
+		return "None", true
+	}
+	switch r := e.(type) {
+	case *ast.Ident:
+		if el, ok := t.locals[t.p.info.Uses[r]]; ok && el.kind == "errv" {
+			return el.name, true
+		}
+		if v, ok := t.p.info.Uses[r].(*types.Var); ok && v.Pkg() == t.p.pkg && v.Parent() == t.p.pkg.Scope() && t.kindOfType(v.Type()) == "err" {
+			return "(Some EOther)", true
+		}
+	case *ast.CallExpr:
+		if pkg, name, ok := t.pkgCall(r); ok && (pkg+"."+name == "fmt.Errorf" || pkg+"."+name == "errors.New") {
+			return "(Some EOther)", true
+		}
+	}
+	return "", false
+}
+
+// isZeroExpr: nil, "", 0 or false written literally - the zero value returned beside an error.
+func (t *fnTr) isZeroExpr(e ast.Expr) bool {
+	tv := t.p.info.Types[e]
+	if tv.IsNil() {
+		return true
+	}
+	if tv.Value != nil {
+		switch tv.Value.Kind() {
+		case constant.String:
+			return constant.StringVal(tv.Value) == ""
+		case constant.Int:
+			v, ok := constant.Int64Val(tv.Value)
+			return ok && v == 0
+		case constant.Bool:
+			return !constant.BoolVal(tv.Value)
+		}
+	}
+	return false
+}
+
 func (t *fnTr) retExpr(x *ast.ReturnStmt) string {
 	// return &local, err   for a (*T, error) result: value and error together
 	if len(t.resKind) == 2 && t.resKind[1] == "err" && strings.HasPrefix(t.resKind[0], "ptr:") && len(x.Results) == 2 {
@@ -1170,36 +1332,62 @@ func (t *fnTr) retExpr(x *ast.ReturnStmt) string {
 		if lv == nil || lv.kind != t.resKind[0][4:] {
 			t.unsupported(x, "pointer result other than &local")
 		}
-		var e string
-		switch r := x.Results[1].(type) {
-		case *ast.Ident:
-			if t.p.info.Types[r].IsNil() {
-				e = "None"
-			} else if el, ok := t.locals[t.p.info.Uses[r]]; ok && el.kind == "errv" {
-				e = el.name
-			}
-		case *ast.CallExpr:
-			if pkg, name, ok := t.pkgCall(r); ok && (pkg+"."+name == "fmt.Errorf" || pkg+"."+name == "errors.New") {
-				e = "(Some EOther)"
-			}
-		}
-		if e == "" {
+		e, ok := t.errExpr(x.Results[1])
+		if !ok {
 			t.unsupported(x, "error result of this form")
 		}
 		return "Ret " + t.withState("("+lv.name+", "+e+")")
 	}
+	// (T1, T2, error): the three values together
+	if len(t.resKind) == 3 && t.resKind[2] == "err" && len(x.Results) == 3 {
+		mark := len(t.guards)
+		var vs []string
+		for i := 0; i < 2; i++ {
+			if t.p.info.Types[x.Results[i]].IsNil() {
+				vs = append(vs, fnZero(t.resKind[i]))
+			} else if t.resKind[i] == "val" {
+				vs = append(vs, t.boxVal(x.Results[i]))
+			} else {
+				vs = append(vs, t.expr(x.Results[i]))
+			}
+		}
+		e, ok := t.errExpr(x.Results[2])
+		if !ok {
+			t.unsupported(x, "error result of this form")
+		}
+		return t.wrap(mark, "Ret "+t.withState("("+vs[0]+", "+vs[1]+", "+e+")"))
+	}
 	if len(t.resKind) == 2 && t.resKind[1] == "err" && len(x.Results) == 1 {
 		if c, ok := x.Results[0].(*ast.CallExpr); ok {
 			mark := len(t.guards)
-			if ec, ok := t.externCall(c); ok && len(ec.results) == 2 && ec.results[1] == "err" && ec.results[0] == t.resKind[0] {
-				return t.wrap(mark, "match "+ec.term+" with Ok v => Ret (Ok v) | Err e => Ret (Err e) | Panic => Crash end")
+			if ec, ok := t.externCall(c); ok && len(ec.results) == 2 && ec.results[1] == "err" && ec.results[0] == t.resKind[0] && len(ec.stateOut) == 0 {
+				return t.wrap(mark, "match "+ec.term+" with Ok v => Ret "+t.withState("(Ok v)")+" | Err e => Ret "+t.withState("(Err e)")+" | Panic => Crash end")
 			}
 		}
 	}
-	if len(t.resKind) == 2 && t.resKind[1] == "err" && len(x.Results) == 2 && t.p.info.Types[x.Results[0]].IsNil() {
+	if len(t.resKind) == 2 && t.resKind[1] == "err" && len(x.Results) == 2 && t.isZeroExpr(x.Results[0]) {
 		if id, ok := x.Results[1].(*ast.Ident); ok {
 			if lv, ok := t.locals[t.p.info.Uses[id]]; ok && lv.kind == "errv" {
-				return "match " + lv.name + " with Some e => Ret (Err e) | None => Ret (Ok " + fnZero(t.resKind[0]) + ") end"
+				return "match " + lv.name + " with Some e => Ret " + t.withState("(Err e)") + " | None => Ret " + t.withState("(Ok "+fnZero(t.resKind[0])+")") + " end"
+			}
+		}
+	}
+	// return (err == nil && c), err : the value is false whenever the error is not nil
+	if len(t.resKind) == 2 && t.resKind[0] == "bool" && t.resKind[1] == "err" && len(x.Results) == 2 {
+		if eid, ok := x.Results[1].(*ast.Ident); ok {
+			if el, ok := t.locals[t.p.info.Uses[eid]]; ok && el.kind == "errv" {
+				if be, ok := unparen(x.Results[0]).(*ast.BinaryExpr); ok && be.Op == token.LAND {
+					if ce, ok := unparen(be.X).(*ast.BinaryExpr); ok && ce.Op == token.EQL && t.p.info.Types[ce.Y].IsNil() {
+						if cid, ok := ce.X.(*ast.Ident); ok && t.p.info.Uses[cid] == t.p.info.Uses[eid] {
+							mark := len(t.guards)
+							v := t.expr(be.Y)
+							if len(t.guards) != mark {
+								t.unsupported(x, "partial operation in the value returned beside an error")
+							}
+							return "match " + el.name + " with Some e => Ret " + t.withState("(Err e)") + " | None => Ret " + t.withState("(Ok "+v+")") + " end"
+						}
+					}
+				}
 			}
 		}
 	}
@@ -1214,24 +1402,28 @@ func (t *fnTr) retExpr(x *ast.ReturnStmt) string {
 		} else {
 			v = t.expr(x.Results[0])
 		}
-		return t.wrap(mark, "Ret "+v)
+		return t.wrap(mark, "Ret "+t.withState(v))
 	case len(t.resKind) == 2 && t.resKind[1] == "err" && len(x.Results) == 2:
 		if t.p.info.Types[x.Results[1]].IsNil() {
 			mark := len(t.guards)
-			v := t.expr(x.Results[0])
-			if t.p.info.Types[x.Results[0]].IsNil() {
+			var v string
+			switch {
+			case t.p.info.Types[x.Results[0]].IsNil():
 				v = fnZero(t.resKind[0])
+			case t.resKind[0] == "val":
+				v = t.boxVal(x.Results[0])
+			default:
+				v = t.expr(x.Results[0])
 			}
-			return t.wrap(mark, "Ret (Ok "+v+")")
+			return t.wrap(mark, "Ret "+t.withState("(Ok "+v+")"))
 		}
-		// a non-nil error: fmt.Errorf / errors.New ; the first result must be nil (no partial value with an error)
-		if !t.p.info.Types[x.Results[0]].IsNil() {
+		// a non-nil error: fmt.Errorf / errors.New / a package-level error value; the first result must be nil
+		// (no partial value with an error)
+		if !t.isZeroExpr(x.Results[0]) {
 			t.unsupported(x, "a non-nil value returned together with an error")
 		}
-		if c, ok := x.Results[1].(*ast.CallExpr); ok {
-			if pkg, name, ok := t.pkgCall(c); ok && (pkg+"."+name == "fmt.Errorf" || pkg+"."+name == "errors.New") {
-				return "Ret (Err EOther)"
-			}
+		if e, ok := t.errExpr(x.Results[1]); ok && e == "(Some EOther)" {
+			return "Ret " + t.withState("(Err EOther)")
 		}
 		t.unsupported(x, "error value other than fmt.Errorf / errors.New")
 	}
@@ -1458,12 +1650,46 @@ func (t *fnTr) assign(x *ast.AssignStmt, next func() string) string {
 				}
 			}
 		}
+		// v, err := self(...) for a recursive function returning (T, error) without out-parameters
+		if c, isCall := x.Rhs[0].(*ast.CallExpr); isCall && t.isSelfCall(c) {
+			if len(t.state) != 0 || len(t.resKind) != 2 || t.resKind[1] != "err" || strings.HasPrefix(t.resKind[0], "ptr:") {
+				t.unsupported(x, "recursive call of a function with this signature used for its results")
+			}
+			t.recurs = true
+			mark := len(t.guards)
+			sig := t.self.Type().(*types.Signature)
+			if sig.Variadic() || len(c.Args) != sig.Params().Len() {
+				t.unsupported(x, "recursive call form")
+			}
+			var args []string
+			for i, a := range c.Args {
+				if t.kindOfType(sig.Params().At(i).Type()) == "val" {
+					args = append(args, t.boxVal(a))
+				} else {
+					args = append(args, t.expr(a))
+				}
+			}
+			va, vb := bind(a, t.resKind[0]), bind(b, "errv")
+			z := fnZero(t.resKind[0])
+			return t.wrap(mark, "bindr (fn_"+t.self.Name()+" fuel_ st "+strings.Join(args, " ")+")\n  (fun rr_ => match rr_ with Panic => Crash | _ => let '("+va+", "+vb+") := match rr_ with Ok v => (v, None) | Err e => ("+z+", Some e) | Panic => ("+z+", None) end in\n  "+next()+" end)")
+		}
 		// v, err := f(...) with f another function of the package returning (T, error)
 		if c, isCall := x.Rhs[0].(*ast.CallExpr); isCall {
 			mark := len(t.guards)
 			if ec, ok := t.externCall(c); ok {
 				if len(ec.results) != 2 || ec.results[1] != "err" {
 					t.unsupported(x, "two-value external call other than (T, error)")
+				}
+				if len(ec.stateOut) > 0 {
+					// the callee consumes from the reader(s): None = it panicked
+					va, vb := bind(a, ec.results[0]), bind(b, "errv")
+					switch ec.rich {
+					case "pair":
+						return t.wrap(mark, "match "+ec.term+" with None => Crash | Some (("+va+", "+vb+"), "+tuplePat(ec.stateOut)+") =>\n  "+next()+" end")
+					case "res":
+						return t.wrap(mark, "match "+ec.term+" with None => Crash | Some (Panic, _) => Crash | Some (rr_, "+tuplePat(ec.stateOut)+") =>\n  let '("+va+", "+vb+") := match rr_ with Ok v => (v, None) | Err e => ("+fnZero(ec.results[0])+", Some e) | Panic => ("+fnZero(ec.results[0])+", None) end in\n  "+next()+" end")
+					}
+					t.unsupported(x, "two-value external call with this signature")
 				}
 				t.fresh++
 				rr := fmt.Sprintf("rr%d", t.fresh)
@@ -1562,9 +1788,12 @@ func (t *fnTr) assign(x *ast.AssignStmt, next func() string) string {
 		if !ok || lv.fields != nil || lv.elemOf != nil {
 			t.unsupported(x, "assignment to "+l.Name)
 		}
-		if lv.kind == "val" {
+		switch {
+		case lv.kind == "val":
 			val = t.boxVal(x.Rhs[0])
-		} else {
+		case t.p.info.Types[x.Rhs[0]].IsNil() && (lv.kind == "vlist" || lv.kind == "strs" || lv.kind == "vmap"):
+			val = fnZero(lv.kind) // a nil slice / map and an empty one are the same model value
+		default:
 			val = t.expr(x.Rhs[0])
 		}
 		return t.wrap(mark, "let "+lv.name+" := "+val+" in\n  "+next())
@@ -1596,6 +1825,19 @@ func (t *fnTr) assign(x *ast.AssignStmt, next func() string) string {
 			v := t.expr(x.Rhs[0])
 			return t.wrap(mark, "let "+lv.name+" := bset "+k+" "+v+" "+lv.name+" in\n  "+next())
 		}
+		if ok && (lv.kind == "strs" || lv.kind == "vlist") && lv.ownedMap() && !t.sliceShared(t.p.info.Uses[id]) {
+			// xs[i] = v on a slice made by this function and not copied to another variable: Go panics unless 0 <= i < len(xs)
+			mark := len(t.guards)
+			ix := t.expr(l.Index)
+			var v string
+			if lv.kind == "vlist" {
+				v = t.boxVal(x.Rhs[0])
+			} else {
+				v = t.expr(x.Rhs[0])
+			}
+			t.guards = append(t.guards, fmt.Sprintf("if (Z.ltb %s 0 || Z.leb (Z.of_nat (length %s)) %s) then Crash else", ix, lv.name, ix))
+			return t.wrap(mark, "let "+lv.name+" := lset "+lv.name+" (Z.to_nat "+ix+") "+v+" in\n  "+next())
+		}
 		if !ok || lv.kind != "vmap" || !lv.ownedMap() {
 			t.unsupported(x, "element assignment on something other than a map made by this function")
 		}
@@ -1606,6 +1848,58 @@ func (t *fnTr) assign(x *ast.AssignStmt, next func() string) string {
 	}
 	t.unsupported(x, "assignment target")
 	return ""
+}
+
+// sliceShared: is the slice local obj used in the function other than as obj[i] (read or store), len(obj), a range
+// operand, `return obj` or its own declaration / assignment from make?  Only then could an element store be seen
+// through another name.
+func (t *fnTr) sliceShared(obj types.Object) bool {
+	shared := false
+	var stack []ast.Node
+	ast.Inspect(t.fn.Body, func(n ast.Node) bool {
+		if n == nil {
+			stack = stack[:len(stack)-1]
+			return true
+		}
+		if id, ok := n.(*ast.Ident); ok && (t.p.info.Uses[id] == obj) && len(stack) > 0 {
+			switch par := stack[len(stack)-1].(type) {
+			case *ast.IndexExpr:
+				if par.X != id {
+					shared = true
+				}
+			case *ast.CallExpr:
+				f, isId := par.Fun.(*ast.Ident)
+				if !isId || f.Name != "len" {
+					shared = true
+				}
+			case *ast.RangeStmt:
+				if par.X != id {
+					shared = true
+				}
+			case *ast.ReturnStmt:
+			case *ast.AssignStmt:
+				// obj = make(...) / obj := make(...): on the left only
+				onLeft := false
+				for _, l := range par.Lhs {
+					onLeft = onLeft || l == ast.Expr(id)
+				}
+				if !onLeft {
+					shared = true
+				} else if len(par.Rhs) != 1 {
+					shared = true
+				} else if c, ok := par.Rhs[0].(*ast.CallExpr); !ok {
+					shared = true
+				} else if f, ok := c.Fun.(*ast.Ident); !ok || f.Name != "make" {
+					shared = true
+				}
+			default:
+				shared = true
+			}
+		}
+		stack = append(stack, n)
+		return true
+	})
+	return shared
 }
 
 // ownedMap: maps created by make in this function (parameters are never written: the translated functions are read-only).
@@ -1801,14 +2095,13 @@ func (t *fnTr) loop(s ast.Stmt, body *ast.BlockStmt, xs string, bindVars func() 
 	t.inLoop = true
 	t.loopEnd = func() string { return "Next " + tupleVal(as) }
 	t.breakEnd = func() string { return "Brk " + tupleVal(as) }
-	defer func() { t.breakEnd = savedBreak }()
 	saved := map[types.Object]bool{}
 	for k, v := range t.escaped {
 		saved[k] = v
 	}
 	b := t.stmts(body.List, t.loopEnd)
 	t.escaped = saved
-	t.inLoop, t.loopEnd = savedIn, savedEnd
+	t.inLoop, t.loopEnd, t.breakEnd = savedIn, savedEnd, savedBreak // what follows the loop belongs to the enclosing loop again
 	st := tupleType(as)
 	return "bindc (S := " + st + ") (range_loop (fun (st_ : " + st + ") (el_ : " + elemTy + ") => let " + tuplePat(as) + " := st_ in let " + pat + " := el_ in\n    (" +
 		b + " : ctl " + st + " " + t.resultType() + ")) " + xs + " " + tupleVal(as) + ")\n  (fun " + tuplePat(as) + " => " + t.stmts(rest, end) + ")"
@@ -1928,8 +2221,11 @@ func (t *fnTr) forStmt(x *ast.ForStmt, rest []ast.Stmt, end func() string) strin
 	init, ok1 := x.Init.(*ast.AssignStmt)
 	cond, ok2 := x.Cond.(*ast.BinaryExpr)
 	post, ok3 := x.Post.(*ast.IncDecStmt)
-	if !ok1 || !ok2 || !ok3 || init.Tok != token.DEFINE || len(init.Lhs) != 1 || cond.Op != token.LSS || post.Tok != token.INC {
-		t.unsupported(x, "for statement other than `for i := c; i < len(xs); i++`")
+	if !ok1 || !ok2 || !ok3 || init.Tok != token.DEFINE || len(init.Lhs) != 1 || len(init.Rhs) != 1 || (cond.Op != token.LSS && cond.Op != token.LEQ) || post.Tok != token.INC {
+		t.unsupported(x, "for statement other than `for i := a; i < b; i++` / `i <= b`")
+	}
+	if !t.isIndexOnlyLoop(init, cond, post, x.Body) {
+		return t.countingFor(x, init, cond, post, rest, end)
 	}
 	iId, _ := init.Lhs[0].(*ast.Ident)
 	start, okc := t.constInt(init.Rhs[0])
@@ -1968,6 +2264,129 @@ func (t *fnTr) forStmt(x *ast.ForStmt, rest []ast.Stmt, end func() string) strin
 	}, "str", rest, end)
 }
 
+// isIndexOnlyLoop: `for i := c; i < len(xs); i++` over a local []string with neither i nor xs assigned in the body
+// (translated as a range over skipn c xs).
+func (t *fnTr) isIndexOnlyLoop(init *ast.AssignStmt, cond *ast.BinaryExpr, post *ast.IncDecStmt, body *ast.BlockStmt) bool {
+	if cond.Op != token.LSS {
+		return false
+	}
+	iId, _ := init.Lhs[0].(*ast.Ident)
+	_, okc := t.constInt(init.Rhs[0])
+	ci, _ := cond.X.(*ast.Ident)
+	pi, _ := post.X.(*ast.Ident)
+	lc, _ := cond.Y.(*ast.CallExpr)
+	if iId == nil || !okc || ci == nil || pi == nil || lc == nil || len(lc.Args) != 1 {
+		return false
+	}
+	iObj := t.p.info.Defs[iId]
+	lf, _ := lc.Fun.(*ast.Ident)
+	xsId, _ := lc.Args[0].(*ast.Ident)
+	if t.p.info.Uses[ci] != iObj || t.p.info.Uses[pi] != iObj || lf == nil || lf.Name != "len" || xsId == nil {
+		return false
+	}
+	xsObj := t.p.info.Uses[xsId]
+	xsLv, ok := t.locals[xsObj]
+	if !ok || xsLv.kind != "strs" {
+		return false
+	}
+	okBody := true
+	ast.Inspect(body, func(n ast.Node) bool {
+		switch y := n.(type) {
+		case *ast.AssignStmt:
+			for _, l := range y.Lhs {
+				if id, ok := l.(*ast.Ident); ok && (t.p.info.Uses[id] == iObj || t.p.info.Uses[id] == xsObj) {
+					okBody = false
+				}
+			}
+		case *ast.Ident:
+			_ = y
+		}
+		return true
+	})
+	return okBody
+}
+
+// countingFor: for i := a; i < b; i++ { body }  (or i <= b) where the body assigns neither i nor anything b mentions.
+//   let i := a in for_loop fuel (fun state => if i < b then body' else Brk state) state
+// body' ends every normal pass and every `continue` with i := i + 1; `break` is Brk.  The bound b is evaluated at
+// every test, as in Go; since nothing it mentions changes, b - a + 1 passes and the final failing test fit into the fuel
+// 2 + (b - a + 1) computed at loop entry (exhaustion = Crash, excluded by the theorems).
+func (t *fnTr) countingFor(x *ast.ForStmt, init *ast.AssignStmt, cond *ast.BinaryExpr, post *ast.IncDecStmt, rest []ast.Stmt, end func() string) string {
+	iId, _ := init.Lhs[0].(*ast.Ident)
+	ci, _ := cond.X.(*ast.Ident)
+	pi, _ := post.X.(*ast.Ident)
+	if iId == nil || ci == nil || pi == nil {
+		t.unsupported(x, "for statement other than `for i := a; i < b; i++` / `i <= b`")
+	}
+	iObj := t.p.info.Defs[iId]
+	if iObj == nil || t.p.info.Uses[ci] != iObj || t.p.info.Uses[pi] != iObj || t.kindOfType(iObj.Type()) != "int" {
+		t.unsupported(x, "for statement other than `for i := a; i < b; i++` / `i <= b`")
+	}
+	as := t.assigned(x.Body.List)
+	// nothing the bound mentions, and not i itself, may be assigned in the body
+	inAs := map[*lvar]bool{}
+	for _, lv := range as {
+		inAs[lv] = true
+	}
+	ast.Inspect(cond.Y, func(n ast.Node) bool {
+		if id, ok := n.(*ast.Ident); ok {
+			if lv, ok := t.locals[t.p.info.Uses[id]]; ok && inAs[lv] {
+				t.unsupported(x, "loop bound that mentions a variable assigned in the loop body")
+			}
+		}
+		return true
+	})
+	ast.Inspect(x.Body, func(n ast.Node) bool {
+		switch y := n.(type) {
+		case *ast.AssignStmt:
+			for _, l := range y.Lhs {
+				if id, ok := l.(*ast.Ident); ok && t.p.info.Uses[id] == iObj {
+					t.unsupported(y, "assignment to the loop counter inside the loop")
+				}
+			}
+		case *ast.IncDecStmt:
+			if id, ok := y.X.(*ast.Ident); ok && t.p.info.Uses[id] == iObj {
+				t.unsupported(y, "assignment to the loop counter inside the loop")
+			}
+		case *ast.UnaryExpr:
+			if id, ok := y.X.(*ast.Ident); ok && y.Op == token.AND && t.p.info.Uses[id] == iObj {
+				t.unsupported(y, "address of the loop counter")
+			}
+		}
+		return true
+	})
+	mark := len(t.guards)
+	a := t.expr(init.Rhs[0])
+	if len(t.guards) != mark {
+		t.unsupported(x, "partial operation in the initial value of the loop counter")
+	}
+	il := t.newLocal(iObj, iId.Name, "int")
+	b := t.expr(cond.Y)
+	if len(t.guards) != mark {
+		t.unsupported(x, "partial operation in the loop bound")
+	}
+	st := append([]*lvar{il}, as...)
+	op := "Z.ltb"
+	if cond.Op == token.LEQ {
+		op = "Z.leb"
+	}
+	savedIn, savedEnd, savedBreak := t.inLoop, t.loopEnd, t.breakEnd
+	t.inLoop = true
+	t.loopEnd = func() string { return "let " + il.name + " := (" + il.name + " + 1)%Z in Next " + tupleVal(st) }
+	t.breakEnd = func() string { return "Brk " + tupleVal(st) }
+	saved := map[types.Object]bool{}
+	for k, v := range t.escaped {
+		saved[k] = v
+	}
+	body := t.stmts(x.Body.List, t.loopEnd)
+	t.escaped = saved
+	t.inLoop, t.loopEnd, t.breakEnd = savedIn, savedEnd, savedBreak
+	sty := tupleType(st)
+	fuel := "(S (S (Z.to_nat ((" + b + ") - (" + a + ") + 1))))"
+	return "let " + il.name + " : Z := " + a + " in bindc (S := " + sty + ") (for_loop " + fuel + " (fun (st_ : " + sty + ") => let " + tuplePat(st) + " := st_ in\n    (if (" + op + " " + il.name + " " + b + ")\n    then (" +
+		body + ")\n    else (Brk " + tupleVal(st) + ") : ctl " + sty + " " + t.resultType() + ")) " + tupleVal(st) + ")\n  (fun " + tuplePat(st) + " => " + t.stmts(rest, end) + ")"
+}
+
 // ---------------------------------------------------------------- constant tables
 
 func constTable(p *pkgInfo, vs *ast.ValueSpec, i int) (string, bool) {
@@ -2004,7 +2423,7 @@ func constTable(p *pkgInfo, vs *ast.ValueSpec, i int) (string, bool) {
 
 // the functions translated into Pure_gen.v ("Recv.Method" for methods)
 var pureFuncs = []string{"cast", "escapeChars", "parsePath", "getSubKeyMap", "hasSubKeys", "Map.PathForKeyShortest", "valuesForKeyPath", "hasKey", "hasKeyPath", "getLeafNodes",
-	"Map.ValuesForKey", "Map.oldValuesForPath", "Map.ValuesForPath", "Map.LeafNodes", "getJson"}
+	"Map.ValuesForKey", "Map.oldValuesForPath", "Map.ValuesForPath", "Map.LeafNodes", "getJson", "NewMapJsonReader", "NewMapJsonReaderRaw", "Map.Exists", "Map.ValueForPath", "Map.ValueForKey", "Map.LeafPaths", "Map.LeafValues", "valuesForArray"}
 
 func genPure(p *pkgInfo) string {
 	vars, _ := pkgVars(p)
@@ -2155,8 +2574,15 @@ func genPure(p *pkgInfo) string {
 			addParam := func(id *ast.Ident, isRecv bool) {
 				obj := p.info.Defs[id]
 				k := t.kindOfType(obj.Type())
-				if k == "" || k == "tok" || strings.HasPrefix(k, "rec") {
+				if k == "" || k == "tok" || strings.HasPrefix(k, "rec:") {
 					t.unsupported(id, "parameter type "+obj.Type().String())
+				}
+				if strings.HasPrefix(k, "recs:") {
+					// a slice of (pointers to) structs, read only: field stores go through struct locals only
+					if _, ok := structs[k[5:]]; !ok {
+						t.unsupported(id, "parameter type "+obj.Type().String())
+					}
+					usedStructs[k[5:]] = true
 				}
 				n := "p_" + id.Name
 				lv := &lvar{name: n, kind: k}
